@@ -8,6 +8,7 @@ import CanVerif.Model.DbcComment
 import CanVerif.Model.DbcTables
 import CanVerif.Model.DbcFile
 import CanVerif.Model.DbcPost
+import CanVerif.Model.DbcPrep
 open Lean CanVerif CanVerif.Dbc
 
 namespace D05
@@ -343,6 +344,14 @@ def handle (op : String) (c i : Json) : Except String (Json × String) := do
               pure (J.obj [("core", J.ofStrList ((writeCoreH es ts ds dds ga fs).map String.ofList))], "ok")
             else
               pure (J.obj [("core", J.ofStrList ((writeDbc es ts ds dds ga fs).map String.ofList))], "ok")
+  | "prep" =>
+    -- c = {"kind": "frame" | "ecu", "name", "attrs": [[k, v]]}: an object of the caller's matrix
+    -- i = {"name": its name in the matrix dump works on, "long": the value of its long-name attribute there or null}
+    if !J.isNull (J.keyD i "skipped" Json.null) then return (J.obj [], "ok")
+    let attr := if (← J.str (← J.key c "kind")) == "frame" then "SystemMessageLongSymbol" else "SystemNodeLongSymbol"
+    let attrs ← (← J.arr (← J.key c "attrs")).mapM fun e => do pure ((← J.str (← J.idx e 0)).toList, (← J.str (← J.idx e 1)).toList)
+    let p := prepLong attr (← J.str (← J.key c "name")).toList attrs
+    pure (J.obj [("name", .str (String.ofList p.1)), ("long", match lookupAttr p.2 attr.toList with | some v => .str (String.ofList v) | none => Json.null)], "ok")
   | "post" =>
     -- i = {"lines": the lines of a file, "final": the projection of the matrix dbc.load returns (names, senders, receivers, comments,
     -- attributes that are neither carriers nor ENUM)}
